@@ -47,7 +47,15 @@ def _sub_logged(text, rx, repl, rule, log, masked=True):
     out, last, n = [], 0, 0
     for mt in re.finditer(rx, m):
         out.append(text[last:mt.start()])
-        r = mt.expand(repl) if isinstance(repl, str) else repl(mt)
+        if isinstance(repl, str):
+            # group references are filled from the ORIGINAL text (the mask blanks literals and comments inside a captured group)
+            def fill(g, mt=mt):
+                k = g.group(1)
+                i = int(k)
+                return text[mt.start(i):mt.end(i)] if mt.group(i) is not None else ""
+            r = re.sub(r"\\(\d)", fill, repl)
+        else:
+            r = repl(mt)
         out.append(r)
         last = mt.end()
         n += 1
